@@ -18,6 +18,7 @@ import (
 	"net/http/httptest"
 	"os"
 	"runtime"
+	"sort"
 	"strings"
 	"syscall"
 	"time"
@@ -727,8 +728,14 @@ func gen(tier string, seed uint64) []runner.Scenario {
 	})
 	// hostile errors through the real server path (SendError on a live connection)
 	i := 0
-	for name, e := range hostileErrors() {
-		name, e := name, e
+	hostile := hostileErrors()
+	var hostileNames []string
+	for name := range hostile {
+		hostileNames = append(hostileNames, name)
+	}
+	sort.Strings(hostileNames) // every process must derive the same scenario list: no map order in it
+	for _, name := range hostileNames {
+		name, e := name, hostile[name]
 		if !thorough && i%3 != int(seed%3) && !strings.Contains(name, "nil") && !strings.Contains(name, "cycle") {
 			i++
 			continue
@@ -796,14 +803,17 @@ func gen(tier string, seed uint64) []runner.Scenario {
 				return nil, nil
 			})
 			consumer := rig.Go("consumer", func() (interface{}, error) {
-				for {
+				// bounded: a stream that hands out the same undecodable message again and again
+				// must not turn this loop into a spin that keeps the process from coming to rest
+				for i := 0; i < 1000; i++ {
 					var m []byte
 					if err := st.MsgRecv(&m, payload.Enc{}); err == io.EOF {
 						return nil, nil
 					}
 				}
+				return nil, errors.New("no end of stream after 1000 receives")
 			})
-			if !reader.Wait() || !consumer.Wait() {
+			if !reader.Wait() || !consumer.Wait() || consumer.Err != nil {
 				a.fail("Stream.HandlePacket-does-not-return", "message packets %v (0,1 = rejected by the decoder) followed by a half-close: dispatch returned=%v, receiver reached end of stream=%v", seq, reader.Returned(), consumer.Returned())
 				break // the stream is wedged: nothing on it can be trusted to return, leave it
 			}
